@@ -261,7 +261,32 @@ def execute(case, st):
     return w
 
 
+def generate_long(rng):
+    """One or two trackers fed a long stream over 90-160 distinct keys."""
+    cfg = make_cfg(rng)
+    cfg["ks"] = ks = rng.choice([2, 2, 3, 4])
+    keys = make_keys(rng, ks, n=rng.choice([90, 120, 160]))
+    vals = make_values(rng, unhx(cfg["default"]))
+    cmds = [{"op": "set", "k": hx(keys[0]), "v": hx(vals[0] or b"\x01"), "via": "m"}, {"op": "tracker_new", "t": 0, "k": hx(keys[0])}]
+    order = list(keys)
+    rng.shuffle(order)
+    stream = order + [rng.choice(keys) for _ in range(rng.choice([40, 80]))]
+    for k in stream:
+        cmds.append({"op": "set", "k": hx(k), "v": hx(rng.choice(vals) or b"\x02"), "via": "m"})
+        d = {"op": "deliver", "t": 0}
+        if rng.random() < 0.15:
+            d["trunc"] = rng.randrange(ks * 8 + 1)
+        cmds.append(d)
+        if rng.random() < 0.15:
+            cmds.append({"op": "deliver", "t": 0})
+    cmds.append({"op": "catchup", "t": 0})
+    cfg["observe_every"] = rng.choice([1, 3, 7])
+    return {"prop": ID, "cfg": cfg, "cmds": cmds}
+
+
 def generate(rng):
+    if rng.random() < 0.02:
+        return generate_long(rng)
     cfg = make_cfg(rng)
     ks = cfg["ks"]
     keys = make_keys(rng, ks)
